@@ -662,7 +662,7 @@ int vnacal_save(vnacal_t *vcp, const char *pathname)
 
     if ((fp = fopen(pathname, "w")) == NULL) {
 	_vnacal_error(vcp, VNAERR_SYSTEM, "fopen: %s: %s",
-		vcp->vc_filename, strerror(errno));
+		pathname, strerror(errno));
 	return -1;
     }
     free((void *)vcp->vc_filename);
@@ -967,6 +967,7 @@ int vnacal_save(vnacal_t *vcp, const char *pathname)
     }
     (void)yaml_emitter_delete(&emitter);
     if (fclose(fp) == -1) {
+	fp = NULL;		/* closed, even though it failed */
 	_vnacal_error(vcp, VNAERR_SYSTEM, "fclose: %s: %s",
 		vcp->vc_filename, strerror(errno));
 	goto error;
